@@ -69,12 +69,17 @@ _MONTH_FULL = list(_MONTH_ABBREV_TO_FULL.values())
 _LOWERCASE_FULL = list(m.lower() for m in _MONTH_FULL)
 
 
+def _int_of_digits(v: str) -> int:
+    """The number written by the digit string (leading zeros do not count for python's size limit)."""
+    return int(v.lstrip("0") or "0")
+
+
 def _is_int_string(v: str) -> bool:
     """Whether the string consists of digits that python can convert to an int."""
     if not v.isdigit():
         return False
     try:
-        int(v)
+        _int_of_digits(v)
     except ValueError:
         # E.g. superscript digits, or more digits than python is willing to convert
         return False
@@ -101,7 +106,7 @@ class MonthLongStringMiddleware(_MonthInterpolator):
     def resolve_month_field_val(self, month_field: Field):
         v = month_field.value
         if isinstance(v, str) and _is_int_string(v):
-            v = int(v)
+            v = _int_of_digits(v)
         if isinstance(v, int):
             if v < 1 or v > 12:
                 return (
@@ -145,7 +150,7 @@ class MonthAbbreviationMiddleware(_MonthInterpolator):
     def resolve_month_field_val(self, month_field: Field):
         v = month_field.value
         if isinstance(v, str) and _is_int_string(v):
-            v = int(v)
+            v = _int_of_digits(v)
         if isinstance(v, int):
             if v < 1 or v > 12:
                 # Nothing we can do here
@@ -193,7 +198,7 @@ class MonthIntMiddleware(_MonthInterpolator):
                 )
 
         if isinstance(v, str) and _is_int_string(v):
-            if 1 <= int(v) <= 12:
-                return int(v), "cast month int-string to int"
+            if 1 <= _int_of_digits(v) <= 12:
+                return _int_of_digits(v), "cast month int-string to int"
 
         return month_field.value, "month field unchanged"
